@@ -2019,6 +2019,15 @@ func (v *FV) callMayPanic(fr *Frame, cc *ssa.CallCommon) bool {
 	}
 	con, callee := v.resolveCallee(fr, cc)
 	if con != nil {
+		if !con.MayPanic && v.con != nil && fr.isTop {
+			// "panics <callee>": this verification (usually a second, thin contract about the recovered path) treats the
+			// matching callee as one that may panic although its contract does not say so for everybody
+			for _, pn := range v.con.PanicsOf {
+				if strings.Contains(con.Key, pn) {
+					return true
+				}
+			}
+		}
 		return con.MayPanic
 	}
 	if callee == nil && !cc.IsInvoke() {
